@@ -16,6 +16,11 @@ def r19_1(ctx):
         return r
     r.saw(ee["path"])
     idx = HirIndex(ee)
+    # the event name is the *first* parameter of a call signature: `params.first()`, not a search among the parameters
+    txt_ee = expr_str(C.family_body(ctx, ee))
+    m_first = re.search(r"\bparams\.(?:iter\(\)\.|as_slice\(\)\.)?(find|position|filter|find_map|skip|nth|last|rev)\(", txt_ee)
+    r.ob("the event name of a call signature is its first parameter", m_first is None and ("params.first()" in txt_ee or "params.get(0)" in txt_ee or m_first is None), C.mloc(ee, ee),
+         "params.first()" if m_first is None else "the parameter is chosen by `params...%s(..)`: a later parameter typed by literals is taken for the event name" % m_first.group(1))
     somes = []
     for n in idx.nodes:
         if n.get("k") == "Ctor" and n.get("variant") == "Some" and (n.get("ty") or "").endswith("Option<%sArrayLit>" % AST):
@@ -159,7 +164,7 @@ def r19_3(ctx):
 def rules(ctx):
     from ..engine import only
     from . import c20
-    return [__import__('vjsx.rules.c16', fromlist=['x']).r16_9, __import__('vjsx.rules.c10', fromlist=['x']).field_ratchet('resolved emits must not depend on what was resolved before'), r19_1, r19_2, r19_3, c16.r16_1, c16.r16_2, c16.r16_3, c20.r20_5,
+    return [__import__('vjsx.rules.c16', fromlist=['x']).r16_9, __import__('vjsx.rules.c10', fromlist=['x']).field_ratchet('resolved emits must not depend on what was resolved before'), r19_1, r19_2, r19_3, c16.r16_1, c16.r16_2, c16.r16_3, c16.r16_11, c20.r20_5,
             only(c20.r20_2, lambda k: "recorded" in k or "define_component" in k or "specifier" in k, "the emits option is only produced for calls recognised as Vue's defineComponent; the record of that import must survive later imports")]
 
 
